@@ -60,6 +60,12 @@ def variants(rng, p):
         pieces.append(p[last:c])
         last = c
     vs.append(('split', [lang.prog_txt(x) for x in pieces if x]))
+    # a later file that starts with rules of the initial part WITHOUT a #program line (every input starts in part initial/base)
+    ini = [r for r in p if r['part'] in ('initial', 'base')]
+    rest = [r for r in p if r['part'] not in ('initial', 'base')]
+    if ini and rest:
+        vs.append(('split-implicit-base', [lang.prog_txt(rest), lang.prog_txt(ini + rest[:1], implicit_base=True)]))
+        vs.append(('base-after-final', [lang.prog_txt(rest + [{'part': 'final', 'head': ('cons',), 'body': [('p', ('kw', 'false'))]}] + [dict(r, part='base') for r in ini])]))
     # the same sub-formula written once more in a further theory atom that cannot change anything (a fresh observer)
     tel = [l[1][1] for r in p for l in r['body'] if l[1][0] == 'tel']
     if tel:
